@@ -1,7 +1,7 @@
 """Shared helpers for Engine-B statement / iteration contracts: locating a statement or loop of the real function by its
 (whitespace-free) source text, running it from an arbitrary state, reading fields."""
 import os, re
-from vf.core import Undecided, REPO
+from vf.core import Undecided, REPO, DISCHARGED, FAILED, UNDECIDED
 from vf.astvc import ast as A, terms as tm, unit as U, backends as B, stl as STLM
 from vf.astvc import symex as SX
 
@@ -279,3 +279,27 @@ def stop_on_error_msg(c):
     c.handlers["Phreeqc::error_msg"] = error_stop
     c.handlers["error_msg"] = error_stop
     return c
+
+
+def check_loop_range(r, label, ex, c, info, iters, var, first, cond_of, hyp=()):
+    """the iterations of an isolated loop cover exactly the intended range: its induction variable starts at `first` and the loop condition
+    is equivalent to cond_of(var) (both semantically: z3 equivalence of the condition the iteration assumed, value of the variable after
+    the initialisation run on a fresh state)"""
+    node = info["node"]
+    init, cond, inc, body = ex.loop_parts(node)
+    v = tm.sym("iter_" + var, "I")
+    conds = [s_.pc[0] for s_ in iters if s_.pc and ("iter_" + var) in repr(s_.pc[0])]
+    if not conds:
+        r.add(label + ".range", UNDECIDED, "symex", 0, "loop condition not read"); return
+    want = cond_of(v)
+    okc = B.z3_prove(list(hyp) + [want], conds[0])[0] == "proved" and B.z3_prove(list(hyp) + [conds[0]], want)[0] == "proved"
+    r.add(label + ".runs_while_%s" % re.sub(r"\s+", "", repr(want))[:60], DISCHARGED if okc else FAILED, "z3", 0, "loop condition %r" % (conds[0],))
+    v0 = None
+    if init is not None and info.get("entry_state") is not None:
+        try:
+            for s0 in ex.exec(init, [info["entry_state"].clone()]):
+                v0 = local(info, s0, var)
+        except Exception as e:
+            v0 = None
+    okv = v0 is not None and (v0 is first or B.z3_prove(list(hyp), tm.eq(v0, first))[0] == "proved")
+    r.add(label + ".starts_at_%s" % re.sub(r"\s+", "", repr(first))[:40], DISCHARGED if okv else FAILED, "z3", 0, "initial value %r" % (v0,))
